@@ -1,9 +1,8 @@
-\* flush / close of ONE Elasticsearch store under every outcome of the _bulk requests (two chunks, one retry), re-open after a failed close;
-\* repaired variant (records carry a client-generated _id): every invariant holds
+\* both stores, pipeline and direct puts, every outcome, re-opens; repaired variant
 SPECIFICATION Spec
 CONSTANTS
-  TypeOf <- TEsEs
-  Active <- OnlyRc
+  TypeOf <- TMemEs
+  Active <- Both
   HasTrackParams <- TPdrv
   Keys <- K1
   TagKey = "tag_u"
@@ -11,16 +10,16 @@ CONSTANTS
   Nodes <- N1
   Ctxs <- CtxOne
   WorldsOf <- WorldsOne
-  PutArgs <- PutOne
+  PutArgs <- PutQuick
   ChunkSize = 2
   MaxRetries = 1
   Alpha <- AlphaAll
   RefreshAlpha <- RBoth
   MaxRecs = 3
-  MaxClock = 0
-  MaxMeta = 0
+  MaxClock = 1
+  MaxMeta = 1
   MaxCalls = 3
-  MaxOpens = 2
+  MaxOpens = 3
   ExplicitRel = 5
   ExplicitAbs = 7
   IdempotentIds = TRUE
